@@ -50,6 +50,11 @@ def judge(ctx, binp, item, r, st, label, profile):
                   replay="rvh c02-render (harness/target/%s), payload '-\\t<doc>\\t<W>\\t<H>\\t<ts>\\tlimit=%d'" % (profile, LIMIT_MS))
     if 'skip' in r:
         st['skipped'] += 1
+        if r['skip'] == 'parse-panic':
+            st['parse_panics'] = st.get('parse_panics', 0) + 1    # C01's subject; witness kept in the evidence
+            ctx.cov.setdefault('parse_panics_seen', [])
+            if len(ctx.cov['parse_panics_seen']) < 3:
+                ctx.cov['parse_panics_seen'].append(dict(at=r.get('at'), doc=doc[:400]))
         return True
     at = str(r.get('at', ''))
     if 'panic' in r:
@@ -59,6 +64,8 @@ def judge(ctx, binp, item, r, st, label, profile):
             return ctx.known_or_violation('filter-size-assert', text, replay)
         if profile == 'debug' and re.search(r"filter/mod\.rs:24[345]$", at):
             return ctx.known_or_violation('f32-bound-debug-assert', text, replay)
+        if profile == 'debug' and re.search(r"filter/turbulence\.rs:(234|239)$", at) and 'overflow' in r['panic']:
+            return ctx.known_or_violation('turbulence-frequency-overflow', text, replay)
         if profile == 'debug' and at.endswith('filter/box_blur.rs:48'):
             return ctx.known_or_violation('blur-sigma-overflow', text, replay)
         ctx.violation(text, replay)
@@ -96,7 +103,7 @@ def judge(ctx, binp, item, r, st, label, profile):
     if cls.get('tile_px', 0) > area:
         st['cls_pattern'] += 1
         return ctx.known_or_violation('pattern-tile-unbounded', text, replay)
-    if slow and cls.get('morph_cost', 0) > 5e8:
+    if slow and cls.get('morph_cost', 0) > 5e7:
         st['cls_morph'] += 1
         return ctx.known_or_violation('morphology-cost', text, replay)
     if slow and cls.get('octaves', 0) > 1000:
@@ -156,6 +163,7 @@ def gen_mutant(rng, path):
 
 def run(ctx):
     global K2
+    os.environ['RUST_BACKTRACE'] = '0'     # keep the abort reason in the last stderr lines the batch driver reports
     rng = ctx.rng
     quick = ctx.tier == 'quick'
     ctx.cov['trusted_base'] = vlib.BASE_TRUSTED + [
@@ -280,7 +288,7 @@ def run(ctx):
             for (W, H), n in rng.sample(combos, per):
                 out.append(('@' + f, W, H, transforms(W, H)[n]))
         return out
-    items = sweep_items(files if not quick else rng.sample(files, 1200), 2 if quick else 8)
+    items = sweep_items(files if not quick else rng.sample(files, 1200), 2 if quick else 14)
     st = run_renders(ctx, binp, items, "e2e-C02 sweep", 'release')
     stats['sweep_release'] = st
     ctx.log("e2e-C02 sweep (release): %s" % st)
@@ -344,6 +352,7 @@ def run(ctx):
 
 
 def replay(ctx, path):
+    os.environ['RUST_BACKTRACE'] = '0'
     r = json.load(open(path))
     rp = r.get('replay', {})
     print(json.dumps({k: v for k, v in r.items() if k != 'replay'}, indent=1))
